@@ -1248,8 +1248,8 @@ class PSBTIn:
                             )
                         )
         else:
-            # non-witness input
-            if self.witness_script:
+            # non-witness input (or the UTXO is not known yet)
+            if self.witness_script and script_pubkey:
                 raise ValueError("WitnessScript defined for non-witness input")
             if self.redeem_script:
                 if not script_pubkey.is_p2sh():
